@@ -50,6 +50,15 @@ def _must(ctx: Ctx, obs: List[Ob], f: Func, label: str, pred: Pred, props, why: 
         obs.append(ctx.ob("MUST", props, f, label, None, False, f"no statement of {f.qualname} does this at all: {why}"))
         return
     w = normal_paths_pass(cfg, pred)
+    if ctx.tier == "thorough":
+        # cross-check the reachability verdict by explicit path enumeration (loops taken 0, 1, 2 times)
+        paths = [p for p in cfg.enumerate_paths(loop_bound=2, limit=5000) if p[-1].kind == "exit"]
+        ctx.paths_enumerated += len(paths)
+        if len(paths) < 5000:
+            miss = [p for p in paths if not any(pred(n) for n in p)]
+            if bool(miss) != (w is not None):
+                raise AnalysisError(f"engine self-check failed for MUST `{label}` in {f.qualname}: reachability says "
+                                    f"{'skip possible' if w else 'always passes'}, path enumeration finds {len(miss)} skipping paths of {len(paths)}")
     obs.append(ctx.ob("MUST", props, f, label, None, w is None,
                       "" if w is None else f"a normal path through {f.qualname} skips it: {why}",
                       None if w is None else describe_path(w)))
@@ -64,6 +73,19 @@ def _dominates(ctx: Ctx, obs: List[Ob], f: Func, label: str, target_pred: Pred, 
         return
     for t in targets:
         ok = cfg.dominated_by(t, dom_pred)
+        if ctx.tier == "thorough":
+            paths = cfg.enumerate_paths(loop_bound=2, limit=5000)
+            ctx.paths_enumerated += len(paths)
+            if len(paths) < 5000:
+                bad = 0
+                for p in paths:
+                    if t in p:
+                        i = p.index(t)
+                        if not any(dom_pred(n) for n in p[:i]):
+                            bad += 1
+                if bool(bad) == ok:
+                    raise AnalysisError(f"engine self-check failed for `{label}` in {f.qualname}: dominance says {ok}, "
+                                        f"path enumeration finds {bad} undominated paths")
         path = None
         if not ok:
             p = cfg.find_path(cfg.entry, t, avoid=lambda n: n is not t and dom_pred(n))
@@ -119,7 +141,7 @@ def _iter_is_post_order(ctx: Ctx, f: Func, it: ast.AST) -> Tuple[bool, str]:
     return False, f"`{norm(it)}` is not a complete post-order walk of the descendants"
 
 
-@rule("MUST", ["C01", "C02", "C03", "C04", "C07", "C08", "C09", "C15"], floor=30, section="3.1")
+@rule("MUST", ["C01", "C02", "C03", "C04", "C07", "C08", "C09", "C13", "C15"], floor=30, section="3.1")
 def must(ctx: Ctx) -> List[Ob]:
     """must-pass-through: every normal path of each primitive mutator performs the writes / calls that keep links and registries in step (link=>register, unlink=>unregister children-first)"""
     obs: List[Ob] = []
@@ -163,7 +185,7 @@ def must(ctx: Ctx) -> List[Ob]:
     si = stmt_index(ctx, f)
     unreg = P_call(si, ["Tree._unregister"])
     _must(ctx, obs, f, "unregisters self (Tree._unregister)", unreg, ["C01", "C02"], "removed nodes are neither reachable nor counted")
-    unlink = P_effect(si, ["remove", "pop", "delitem"], ["_children"])
+    unlink = P_effect(si, ["remove", "pop", "delitem"], ["_children"], trans=True)
     _must(ctx, obs, f, "takes self out of the parent's child list", unlink, ["C01", "C04"], "an unregistered node must not stay reachable")
 
     def _children_handled(n: N) -> bool:
@@ -247,6 +269,12 @@ def must(ctx: Ctx) -> List[Ob]:
     _must(ctx, obs, f, "delegates to root.remove_children()", P_call(stmt_index(ctx, f), ["Node.remove_children"]), ["C01", "C04"], "clear must unregister everything")
     f = m.func("Tree.__delitem__")
     _must(ctx, obs, f, "delegates to node.remove()", P_call(stmt_index(ctx, f), ["Node.remove"]), ["C01", "C04", "C09"], "del tree[x] must remove the node")
+    from ..pat import has as _has
+
+    dp = [p_ for p_ in f.positional_params() if p_ != f.self_name][0]
+    ok = _has(f"self[{dp}].remove()", f.node)
+    obs.append(ctx.ob("MUST", ["C09", "C13"], f, "del tree[x] resolves the key through tree[x] (same refusals: KeyError, AmbiguousMatchError, ValueError)", None, ok,
+                      "" if ok else "a different lookup silently removes the first of several matches instead of refusing"))
 
     # --- Node.filter: removals go through remove()
     f = m.func("Node.filter._visit")
@@ -446,6 +474,19 @@ def unreg_shape(ctx: Ctx) -> List[Ob]:
         if not alt:
             raise AnalysisError("Tree._unregister: identity-removal idiom not recognised")
         obs.append(ctx.ob("UNREG-SHAPE", ["C02", "C01"], f, "clone list rebuilt with an identity filter", None, True))
+    # the id map entry is deleted under the node's own node_id
+    dl = [(e, node) for e, node in ctx.fx.direct_nodes[f] if e.field == "_node_by_id" and e.op in ("delitem", "pop")]
+    okd = len(dl) == 1
+    if okd:
+        nd = dl[0][1]
+        k = None
+        if isinstance(nd, ast.Delete) and isinstance(nd.targets[0], ast.Subscript):
+            k = norm(nd.targets[0].slice)
+        elif isinstance(nd, ast.Call) and nd.args:
+            k = norm(nd.args[0])
+        okd = k == f"{pname}._node_id"
+    obs.append(ctx.ob("UNREG-SHAPE", ["C01", "C02"], f, "the id map entry is deleted under node._node_id", None, okd,
+                      "" if okd else "a node registered under an explicit node_id would stay in the id map (counted, and found by tree[node_id]) after removal"))
     # emptied slot is deleted, under an emptiness test
     dels = [(e, node) for e, node in ctx.fx.direct_nodes[f] if e.op == "delitem" and e.field == "_nodes_by_data_id"]
     ok = False
@@ -542,7 +583,7 @@ def _is_cond_raise(n: N, cfg: CFG, model) -> Optional[ast.If]:
     return None
 
 
-@rule("GUARD-CYCLE", ["C01"], floor=1, section="3.1")
+@rule("GUARD-CYCLE", ["C01", "C13"], floor=1, section="3.1")
 def guard_cycle(ctx: Ctx) -> List[Ob]:
     """re-parenting is guarded: every write of a registered node's _parent is dominated by a refusal whose condition tests ancestry (the new parent is neither the node nor one of its descendants)"""
     obs: List[Ob] = []
@@ -572,7 +613,22 @@ def guard_cycle(ctx: Ctx) -> List[Ob]:
                 return False
 
             ok = cfg.dominated_by(t, anc_guard)
-            obs.append(ctx.ob("GUARD-CYCLE", ["C01"], f, f"{norm(node)} is guarded by an ancestry refusal", node, ok,
+            # ... and the guard covers the node itself (is_descendant_of / is_ancestor_of are strict)
+            newp = norm(node.value) if isinstance(node, ast.Assign) else "?"
+
+            def self_guard(n: N) -> bool:
+                if n.kind != "test":
+                    return False
+                pi = ctx.model.parent_of(n.ast)
+                if not isinstance(pi, ast.If) or not any(isinstance(x, ast.Raise) for st in pi.body for x in ast.walk(st)):
+                    return False
+                txt = norm(n.ast)
+                return f"{newp} is self" in txt or f"self is {newp}" in txt or "add_self=True" in txt
+
+            ok2 = cfg.dominated_by(t, self_guard)
+            obs.append(ctx.ob("GUARD-CYCLE", ["C01", "C13"], f, f"{norm(node)}: the ancestry refusal also covers the node itself", node, ok2,
+                              "" if ok2 else "n.move_to(n) is not refused: the branch becomes a detached self-cycle that is still registered"))
+            obs.append(ctx.ob("GUARD-CYCLE", ["C01", "C13"], f, f"{norm(node)} is guarded by an ancestry refusal", node, ok,
                               "" if ok else "moving a node below itself or one of its descendants detaches the branch: "
                               "nodes stay counted but are no longer reachable, and the node becomes its own ancestor"))
     return obs
